@@ -8,44 +8,39 @@ def C10_statement : Prop :=
   ∀ (gens : List (List Write)) (fs : Fs) (p : Path) (c : Content),
     fs p = some c → c.contains STATIC = true → runAll gens fs p = some c
 
-/-- Proved part: every static-marked *UTF-8* file, at any path (generated or not, in or out of
-cleanup's scope), marker anywhere, with or without an `after` marker, any generated code, any
-number of generations. -/
-theorem C10_partial (gens : List (List Write)) (fs : Fs) (p : Path) (t : Text)
-    (h : fs p = some (.text t)) (hs : isSub STATIC t = true) :
-    runAll gens fs p = some (.text t) := by
+/-- one generation: a file carrying the directive, at any path (generated or not, in or out of cleanup's
+scope), is left exactly as it is -/
+theorem C10_step (outs : List Write) (fs : Fs) (p : Path) (c : Content)
+    (h : fs p = some c) (hs : c.contains STATIC = true) :
+    gen outs fs p = some c := by
+  simp only [gen, h]
+  exact genAt_static _ _ (by simpa [isStaticC] using hs)
+
+/-- **C10 at full strength** (after the repair that looks for the directive in the file's bytes): marker
+anywhere in the file, with or without an `after` marker, any encoding, any generated code, any number of
+generations -/
+theorem C10 : C10_statement := by
+  intro gens fs p c h hs
   induction gens generalizing fs with
   | nil => exact h
-  | cons outs rest ih =>
-    apply ih
-    simp only [gen, h]
-    exact genAt_static _ _ hs
+  | cons outs rest ih => exact ih _ (C10_step outs fs p c h hs)
 
-/-- one generation, the step used above -/
-theorem C10_step (outs : List Write) (fs : Fs) (p : Path) (t : Text)
+/-- the text-file instance (the statement that held before the repair) -/
+theorem C10_partial (gens : List (List Write)) (fs : Fs) (p : Path) (t : Text)
     (h : fs p = some (.text t)) (hs : isSub STATIC t = true) :
-    gen outs fs p = some (.text t) := by
-  simp only [gen, h]; exact genAt_static _ _ hs
+    runAll gens fs p = some (.text t) := C10 gens fs p (.text t) h hs
 
-/-- The unchanged code does not satisfy the full statement: a file that contains the directive
-but is not valid UTF-8 is read as empty, hence overwritten (or deleted by cleanup). -/
+/-- the former counterexample — a static-marked file that is not valid UTF-8 — is now kept, whether or not
+something is generated at its path -/
 def C10_witness_content : Content := .binary (bytesOf cs!"// libninja: static" ++ [255])
 def C10_witness_fs : Fs := fun p => if p = cs!"src/a.rs" then some C10_witness_content else none
 
-theorem C10_counterexample : ¬ C10_statement := by
-  intro h
-  have := h [[(cs!"src/a.rs", CodeSpec.plain cs!"x")]] C10_witness_fs cs!"src/a.rs" C10_witness_content
-    (by simp [C10_witness_fs]) (by decide)
-  revert this
-  decide
+example : gen [(cs!"src/a.rs", CodeSpec.plain cs!"x")] C10_witness_fs cs!"src/a.rs" = some C10_witness_content ∧
+    gen [] C10_witness_fs cs!"src/a.rs" = some C10_witness_content := by decide
 
-/-- cleanup deletes such a file when nothing is generated at its path -/
-theorem C10_counterexample_cleanup :
-    gen [] C10_witness_fs cs!"src/a.rs" = none := by decide
-
-/-- non-vacuity of `C10_partial` -/
+/-- non-vacuity -/
 example : (fun p => if p = cs!"src/model/pet.rs" then some (Content.text cs!"// libninja: static\nfn x(){}") else none : Fs)
     cs!"src/model/pet.rs" = some (.text cs!"// libninja: static\nfn x(){}") ∧
-    isSub STATIC cs!"// libninja: static\nfn x(){}" = true := by decide
+    (Content.text cs!"// libninja: static\nfn x(){}").contains STATIC = true := by decide
 
 end Ln
